@@ -1,4 +1,4 @@
-package PKGNAME
+package store
 
 // Native bodies of the harness API. The symbolic engine intercepts every
 // v* function by name and never executes these bodies; the native twin
@@ -192,5 +192,5 @@ func vInstant(day, sec, nsec, off int) time.Time {
 }
 
 // vHourMin and vDateStr print clock times and dates the way the UI stores them.
-func vHourMin(h, m int) string     { return fmt.Sprintf("%02d:%02d", h, m) }
-func vDateStr(y, m, d int) string  { return fmt.Sprintf("%04d-%02d-%02d", y, m, d) }
+func vHourMin(h, m int) string    { return fmt.Sprintf("%02d:%02d", h, m) }
+func vDateStr(y, m, d int) string { return fmt.Sprintf("%04d-%02d-%02d", y, m, d) }
